@@ -259,10 +259,18 @@ def r15_4(ctx):
     okb = False
     for c in bb:
         if len(c.args) == 2:
-            okb = n.key(c.args[0]) == n.key(ast.parse("[0]*(degree+1)+[1]*(degree+1)", mode="eval").body) or \
-                ast.unparse(c.args[0]).replace(" ", "") == "[0]*(degree+1)+[1]*(degree+1)"
             dk = n.poly(c.args[1])
-            okb = okb and dk == expected("coeff.shape[1]-1") or okb and "shape[1]" in str(dk)
+            kn = c.args[0]
+
+            def rep(x, val):
+                """multiplicity polynomial of `[val]*m` / `m*[val]`, else None"""
+                if isinstance(x, ast.BinOp) and isinstance(x.op, ast.Mult):
+                    for lst, m in ((x.left, x.right), (x.right, x.left)):
+                        if isinstance(lst, ast.List) and len(lst.elts) == 1 and isinstance(lst.elts[0], ast.Constant) and lst.elts[0].value == val:
+                            return n.poly(m)
+                return None
+            okb = isinstance(kn, ast.BinOp) and isinstance(kn.op, ast.Add) and rep(kn.left, 0) == dk + 1 and rep(kn.right, 1) == dk + 1
+            okb = okb and (dk == expected("coeff.shape[1]-1") or "shape[1]" in str(dk))
     ctx.check(okb, "Bernstein basis of the coefficient degree", detail="basis does not match coefficient width",
               expected="BSplineBasis([0]*(degree+1)+[1]*(degree+1), degree) with degree = coeff.shape[1]-1",
               found="; ".join(ast.unparse(c) for c in bb) or "none", fi=f)
@@ -321,6 +329,11 @@ def r15_6(ctx):
                 out.append(node.value)
             if isinstance(node, ast.AugAssign) and isinstance(node.target, ast.Name) and node.target.id == name:
                 out.append(node.value)
+            # canonical forms of `L += [..]`
+            if isinstance(node, ast.Expr) and is_call_to(node.value, "extend", name) and len(node.value.args) == 1:
+                out.append(node.value.args[0])
+            if isinstance(node, ast.Expr) and is_call_to(node.value, "append", name) and len(node.value.args) == 1:
+                out.append(ast.List(elts=[node.value.args[0]], ctx=ast.Load()))
         return out
 
     pf, pt = pieces(fr.id), pieces(to.id)
